@@ -78,6 +78,9 @@ async fn asynchronous(worterbuch: &CloneableWbApi, config: &Config) -> Persisten
     )
     .await?;
 
+    // only now that the inactive slot holds a complete snapshot does it become the active one
+    flip_toggle(config).await?;
+
     File::create(&last_persisted).await?;
 
     Ok(())
@@ -117,6 +120,9 @@ pub(crate) async fn synchronous(
         &grave_goods_last_will_path_checksum,
     )
     .await?;
+
+    // only now that the inactive slot holds a complete snapshot does it become the active one
+    flip_toggle(config).await?;
 
     File::create(&last_persisted).await?;
 
@@ -205,47 +211,47 @@ pub async fn load(config: &Config) -> PersistenceResult<Worterbuch> {
         _,
     ) = file_paths(config, false).await?;
 
-    let mut wb = match try_load(&store_path, &store_path_checksum, config).await {
-        Ok(worterbuch) => Ok(worterbuch),
-        Err(e) => {
-            warn!(
-                "Could not load persistence file {}: {e}",
-                store_path.to_string_lossy()
-            );
-            let (store_path, store_path_checksum, _, _, _) = file_paths(config, true).await?;
-            info!(
-                "Trying to load persistence file {} …",
-                store_path.to_string_lossy()
-            );
-            try_load(&store_path, &store_path_checksum, config).await
-        }
-    }?;
+    // store and grave goods / last wills are always taken from the same slot
+    let (mut wb, grave_goods_last_will) =
+        match try_load(&store_path, &store_path_checksum, config).await {
+            Ok(worterbuch) => (
+                worterbuch,
+                try_load_grave_goods_last_will(
+                    &grave_goods_last_will_path,
+                    &grave_goods_last_will_path_checksum,
+                )
+                .await
+                .ok(),
+            ),
+            Err(e) => {
+                warn!(
+                    "Could not load persistence file {}: {e}",
+                    store_path.to_string_lossy()
+                );
+                let (
+                    store_path,
+                    store_path_checksum,
+                    grave_goods_last_will_path,
+                    grave_goods_last_will_path_checksum,
+                    _,
+                ) = file_paths(config, true).await?;
+                info!(
+                    "Trying to load persistence file {} …",
+                    store_path.to_string_lossy()
+                );
+                let worterbuch = try_load(&store_path, &store_path_checksum, config).await?;
+                // the inactive slot may be a flush that did not complete: it is only usable as a whole
+                let grave_goods_last_will = try_load_grave_goods_last_will(
+                    &grave_goods_last_will_path,
+                    &grave_goods_last_will_path_checksum,
+                )
+                .await?;
+                flip_toggle(config).await?;
+                (worterbuch, Some(grave_goods_last_will))
+            }
+        };
 
-    if let Ok(grave_goods_last_will) = match try_load_grave_goods_last_will(
-        &grave_goods_last_will_path,
-        &grave_goods_last_will_path_checksum,
-    )
-    .await
-    {
-        Ok(gglw) => Ok(gglw),
-        Err(e) => {
-            warn!(
-                "Could not load persistence file {}: {e}",
-                grave_goods_last_will_path.to_string_lossy()
-            );
-            let (_, _, grave_goods_last_will_path, grave_goods_last_will_path_checksum, _) =
-                file_paths(config, true).await?;
-            info!(
-                "Trying to load persistence file {} …",
-                grave_goods_last_will_path.to_string_lossy()
-            );
-            try_load_grave_goods_last_will(
-                &grave_goods_last_will_path,
-                &grave_goods_last_will_path_checksum,
-            )
-            .await
-        }
-    } {
+    if let Some(grave_goods_last_will) = grave_goods_last_will {
         wb.apply_grave_goods(grave_goods_last_will.grave_goods)
             .await;
         wb.apply_last_wills(grave_goods_last_will.last_will).await;
@@ -331,36 +337,40 @@ pub(crate) async fn file_paths(
     ))
 }
 
+/// Selects the slot to use: the active one (the `.toggle` file exists: main) for reading, the inactive
+/// one for writing. The selector itself is not touched: a flush writes the inactive slot completely
+/// and makes it the active one with `flip_toggle` as its last step, so that a crash at any point leaves
+/// the last completed snapshot selected.
 #[instrument(level=Level::DEBUG, ret, err)]
 async fn toggle_alternating_files(path: &Path, write: bool) -> PersistenceResult<bool> {
+    let main_is_active = File::open(path).await.is_ok();
     if write {
-        if remove_file(path).await.is_ok() {
-            debug!(
-                "toggle file {} removed, writing to backup",
-                path.to_string_lossy()
-            );
-            Ok(false)
-        } else {
-            File::create(path).await?;
-            debug!(
-                "toggle file {} created, writing to main",
-                path.to_string_lossy()
-            );
-            Ok(true)
-        }
-    } else if File::open(path).await.is_ok() {
         debug!(
-            "toggle file {} exists, reading from main",
-            path.to_string_lossy()
+            "toggle file {} {}, writing to {}",
+            path.to_string_lossy(),
+            if main_is_active { "exists" } else { "does not exist" },
+            if main_is_active { "backup" } else { "main" },
         );
-        Ok(true)
+        Ok(!main_is_active)
     } else {
         debug!(
-            "toggle file {} does not exists, reading from backup",
-            path.to_string_lossy()
+            "toggle file {} {}, reading from {}",
+            path.to_string_lossy(),
+            if main_is_active { "exists" } else { "does not exist" },
+            if main_is_active { "main" } else { "backup" },
         );
-        Ok(false)
+        Ok(main_is_active)
     }
+}
+
+#[instrument(level=Level::DEBUG, skip(config), err)]
+async fn flip_toggle(config: &Config) -> PersistenceResult<()> {
+    let mut toggle_path = PathBuf::from(&config.data_dir);
+    toggle_path.push(".toggle");
+    if remove_file(&toggle_path).await.is_err() {
+        File::create(&toggle_path).await?;
+    }
+    Ok(())
 }
 
 #[instrument(level=Level::DEBUG, skip(data), ret)]
